@@ -12,6 +12,8 @@ from vlib import core
 from vlib.core import Failure
 
 IPA, IPB, IPC = '192.168.0.1', '192.168.0.2', '192.168.0.3'
+DH_PREF = {'dh': ('14', 'ecp256'), 'dh_b': ('ecp256', '14')}
+NO_COMMON = {'over_b': {'conn': {'encr': ['aes128']}}, 'encr': ('aes256',)}
 VARIANTS = ['none', 'correct', 'corrupted', 'other_spi', 'other_nonce', 'other_address', 'two_first_wrong',
             'two_first_right', 'missing_ke', 'missing_nonce']
 
@@ -73,12 +75,12 @@ def build(variant, base, cookie, rng):
     return bytes(m.to_bytes()), src
 
 
-def observe(ctx, seed, h, variant):
+def observe(ctx, seed, h, variant, conf=None):
     """One IKE_SA_INIT request of the given variant against a responder holding h half-open entries."""
     import message
     from message import Message, Payload, PayloadNOTIFY
     rng = random.Random(seed)
-    with Pair(seed=seed) as p:
+    with Pair(seed=seed, **(conf or {})) as p:
         # a second configured peer address, so that a cookie can be replayed from another source
         cfg = p.B.configuration
         base_conf = cfg.ike_configurations[(ip_address(IPB), ip_address(IPA))]
@@ -91,7 +93,16 @@ def observe(ctx, seed, h, variant):
         m0 = Message.parse(base)
         nonce = m0.get_payload(Payload.Type.NONCE).nonce
         cookie = hmac.new(secret, m0.spi_i + nonce + ip_address(IPA).packed, hashlib.sha256).digest()
-        junk(p, h, base, secret)
+        junk_base = base
+        if conf:
+            # differing DH preferences: the first request (the one under test) carries a KE group the responder would
+            # not pick; the half-open entries are made from the initiator's RETRY, which the responder accepts
+            p.sim.net.append(sent[0])
+            p.do(['deliver', 0])                      # B: INVALID_KE_PAYLOAD, no state
+            p.do(['deliver', 0])                      # A: retry with the suggested group (left undelivered)
+            junk_base = p.sim.net[0][2]
+            p.sim.net.clear()
+        junk(p, h, junk_base, secret)
         if sum(1 for s_ in p.B.controller.ike_sas if int(s_.state) < 10) != h:
             raise RuntimeError(f'C18 harness: {h} half-open entries wanted')
         data, src = build(variant, base, cookie, rng)
@@ -131,7 +142,7 @@ def observe(ctx, seed, h, variant):
             'ncookies': len(cookies), 'first_equal': bool(cookies and cookies[0] == expected),
             'kind': kind, 'dh_delta': p.B.dh_calls - dh_before, 'table_delta': len(p.B.controller.ike_sas) - table_before,
             'netlink_delta': p.B.kernel.n - nreq, 'reply_kinds': kinds, 'notifies': notifies,
-            'expected_cookie': expected, 'request': data.hex(), 'src': src, 'seed': seed,
+            'expected_cookie': expected, 'request': data.hex(), 'src': src, 'seed': seed, 'conf': conf or {},
         }
     return obs
 
@@ -178,7 +189,7 @@ def correspond(ctx):
 def judge(o):
     """the property on one observation of the real code"""
     f = []
-    rep = {'h': o['h'], 'variant': o['variant'], 'seed': o['seed']}
+    rep = {'h': o['h'], 'variant': o['variant'], 'seed': o['seed'], 'conf': o['conf']}
     want_armed = o['halfopen_incl_new'] > 10
     if o['armed'] != want_armed:
         f.append(Failure('property', 'cookie:threshold', f'{o["halfopen_incl_new"]} half-open IKE_SAs (new one included): '
@@ -202,7 +213,7 @@ def judge(o):
         if o['dh_delta'] or o['table_delta'] != 0:
             f.append(Failure('property', 'cookie:work-for-malformed-request', f'{o["variant"]}: dh {o["dh_delta"]}, '
                              f'table {o["table_delta"]}', rep))
-    if o['armed'] and well_formed and o['ncookies'] and o['first_equal']:
+    if o['armed'] and well_formed and o['ncookies'] and o['first_equal'] and not o['conf']:
         if o['kind'] != 2 or o['table_delta'] != 1:
             f.append(Failure('property', 'cookie:valid-cookie-refused', f'{o["variant"]}: kind {o["kind"]}', rep))
     if o['variant'] in ('other_spi', 'other_nonce', 'other_address', 'corrupted', 'two_first_wrong') and o['armed'] \
@@ -296,6 +307,13 @@ def oracle(ctx, deep):
         if deep:
             for _ in range(3):
                 obs += [observe(ctx, ctx.rng.getrandbits(32), h, v) for h, v in grid(ctx)]
+    # the same under load when the initiator's KE group is not the one the responder would pick (differing DH
+    # preferences): without the right cookie the answer is still nothing but the COOKIE notification - neither
+    # INVALID_KE_PAYLOAD nor NO_PROPOSAL_CHOSEN (the cookie test precedes ALL negotiation work)
+    for conf in (DH_PREF,):
+        for h in (10, 12):
+            for v in ('none', 'corrupted', 'other_nonce', 'two_first_wrong'):
+                obs.append(observe(ctx, ctx.rng.getrandbits(32), h, v, conf))
     for o in obs:
         fails += judge(o)
         if len(fails) > 4:
@@ -311,7 +329,7 @@ def replay(ctx, obj):
     if obj.get('regression') == 'F20':
         return ignored_requests(ctx, obj['seed'])
     if 'variant' in obj:
-        return judge(observe(ctx, obj['seed'], obj['h'], obj['variant']))
+        return judge(observe(ctx, obj['seed'], obj['h'], obj['variant'], obj.get('conf') or None))
     return []
 
 
